@@ -143,7 +143,8 @@ def build_config(call, variant, seed):
         "int_dict_key": (lambda: mf(sensitive_features={1: g}), lambda: mf(sensitive_features={"1": g})),
         "missing_sf": None,
         "degenerate_group": None, "control_features": None, "eo_with_selection_rate": None, "unknown_constraint": None, "unknown_objective": None, "estimator_none": None,
-        "both_bounds": (lambda: getattr(red, MOMENTS[variant % 5])(difference_bound=0.1, ratio_bound=0.8), lambda: getattr(red, MOMENTS[variant % 5])(ratio_bound=0.8)),
+        "both_bounds": (lambda: getattr(red, MOMENTS[variant % 5])(difference_bound=[0.1, 0.0, 0, 1e-9, 0.5][(variant // 5 + variant) % 5], ratio_bound=0.8),
+                        lambda: getattr(red, MOMENTS[variant % 5])(ratio_bound=0.8)),
         "ratio_zero": (lambda: getattr(red, MOMENTS[variant % 5])(ratio_bound=0.0), lambda: getattr(red, MOMENTS[variant % 5])(ratio_bound=1.0)),
         "ratio_above_one": (lambda: getattr(red, MOMENTS[variant % 5])(ratio_bound=1.0 + 10.0 ** -(variant % 4)), lambda: getattr(red, MOMENTS[variant % 5])(ratio_bound=0.999)),
         "ratio_negative": (lambda: getattr(red, MOMENTS[variant % 5])(ratio_bound=-0.5), lambda: getattr(red, MOMENTS[variant % 5])(ratio_bound=0.5)),
@@ -223,7 +224,7 @@ def run(ck):
     ck.exhaustive = True
     nvar = 2 if ck.quick else 6
     # variants rotate over the moment classes / metric functions / constraints: always cover all of them
-    per_ep = {"moment_load_data": len(MOMENTS), "fairness_metric": len(FAIR), "ThresholdOptimizer_fit": 3, "constructor": 5}
+    per_ep = {"moment_load_data": len(MOMENTS), "fairness_metric": len(FAIR), "ThresholdOptimizer_fit": 3, "constructor": 10}
     jobs = [(c, v, ck.seed) for c in calls for v in range(max(nvar, per_ep.get(c["ep"], 0))) if c["must_reject"]] + [(c, 0, ck.seed) for c in calls if not c["must_reject"]]
     res = pmap(_one, jobs, chunksize=4)
     nskip = nex = 0
